@@ -2,11 +2,13 @@
    results.  Model: Model/Collection.v (SearchResultsCollection over a
    catalog's source and tag tables).  All theorems hold for EVERY collection
    reachable by any sequence of add() calls and EVERY catalog. *)
-From Coq Require Import ZArith List Bool Permutation.
+From Coq Require Import String ZArith List Bool Permutation.
+From SK Require Import Model.Skel Model.Stm Model.SequenceSk Gen.SkelTree.
 From SK Require Import Model.Collection Spec.Collection Proofs.CollectionDict
-     Proofs.Collection Proofs.CollectionTop.
+     Proofs.Collection Proofs.CollectionTop Gen.XCatalog.
 Import ListNotations.
 Open Scope Z_scope.
+Open Scope list_scope.
 
 (* len() = sum of the per-path lists = number of results yielded by `all` *)
 Theorem C14_len_is_sum : forall cat c,
@@ -171,6 +173,49 @@ Proof.
   split; [apply build_reachable|].
   eexists. repeat split; vm_compute; reflexivity.
 Qed.
+
+(* ---- T1, structure: the tree skeleton of add() and the tests / filters /
+   accumulations of the lookups, regenerated from the source on every run
+   (translator/skeleton.py, translator/plugins/catalog.py) *)
+Local Open Scope string_scope.
+Definition expected_collection_add : list stm :=
+  [ SLoop [ SEv (Call "register_store"); SEv (Call "resolve_source");
+            SIf [] [] ] ].          (* path not in dict: new list | append *)
+Theorem C14_collection_add_shape :
+  calls_only_list tk_collection_add = expected_collection_add.
+Proof. vm_compute. reflexivity. Qed.
+Local Close Scope string_scope.
+
+(* the model's lookups ARE the loop nests of the source filled with the
+   extracted tests: `if path:` (truthiness), `result.tag != tag`,
+   `result.sequence_id is None`, `s_id != sequence_obj.id`, and the
+   accumulation of __len__ *)
+Definition select_src (restrict : Z -> bool) (keep : result -> bool)
+           (c : coll) (p : Z) : list result :=
+  flat_map (fun q => filter keep (find_by_path c q))
+           (if restrict p then [p] else files c).
+
+Theorem C14_lookups_are_source_pieces : forall c t p d,
+  select_src x_fbt_restrict (fun r => x_fbt_keeps (tag r) t) c p
+    = find_by_tag c t p /\
+  select_src x_seq_restrict (fun r => x_seq_keeps (seq r)) c p
+    = all_sequence_results c p /\
+  fold_left (fun acc r => if x_fss_keeps (seq r) d
+                          then dappend oz_eqb acc (section r) r else acc)
+            (all_sequence_results c p) []
+    = find_sequence_sections c d p /\
+  fold_left (fun n f => x_len_step n (Z.of_nat (length (find_by_path c f))))
+            (files c) x_len_init = len c.
+Proof. intros. repeat split; reflexivity. Qed.
+
+Theorem C14_statement_shapes_from_source :
+  x_fss_groups_by_section_id = true /\
+  x_fsbt_updates_per_definition = true /\
+  x_add_appends_by_resolved_path = true /\
+  x_find_by_path_default_empty = true /\
+  x_all_yields_every_value = true /\
+  x_result_meta_none_iff_slot_none = true.
+Proof. repeat split; reflexivity. Qed.
 
 Print Assumptions C14_len_is_sum.
 Print Assumptions C14_all_eq_items.
